@@ -38,7 +38,8 @@ ASSUMPTIONS = [
     "behind it are arbitrary",
     "address not empty when the pattern has type alternatives (rtosc_argument_string: assert(msg && *msg))",
     "spec reading: alternatives with backtracking; an index is the maximal digit run; '/' that is not last is literal text; patterns "
-    "where an alternative that is empty or starts with a digit directly follows #N are not well-formed (statement ambiguous there); "
+    "where another enumeration, or an alternative that is empty or starts with a digit, directly follows #N are not well-formed "
+    "(statement ambiguous there); "
     "'*' wildcard, '?', '[', ']' are outside the documented form",
     "type clause is a band: equal to an alternative => must match; neither equal nor an extension => must not; proper extension => either",
     "C05.match.* give the message 8 arbitrary bytes of slack behind the type tags (result must not depend on them); reads outside an "
@@ -111,7 +112,7 @@ def classify(ctx, pats):
 def generate(ctx):
     """returns (normal, kf): lists of well-formed patterns without / with a prefix alternative"""
     quick = ctx.tier == "quick"
-    atoms = LIT + ENUM + ALT
+    atoms = LIT + ENUM + (ALT[:2] if quick else ALT)        # quick: "{a/,b1}" only inside QUICK_DEPTH3 and the random patterns
     cand = []
     for p in _with_trailing(_paths(atoms, 2)):
         for t in TYPES_MAIN:
@@ -126,10 +127,10 @@ def generate(ctx):
     for p in TYPE_PATHS:
         for t in TYPES_ALL:
             cand.append(p + t)
-    cand += _random_patterns(24 if quick else 160, ctx.seed, atoms, 4, 6)
+    cand += _random_patterns(12 if quick else 160, ctx.seed, LIT + ENUM + ALT, 4, 6)
     # known finding family: prefix alternatives in a few contexts
     kfc = []
-    ctxs = (("", ""), ("", "b"), ("a", "/"), ("", "c:i"), ("#2", "b")) if quick else \
+    ctxs = (("", ""), ("", "b"), ("a", "/:i")) if quick else \
         list(itertools.product(["", "a", "#2", "/"], ["", "b", "c", "/", "#2", "b:i:f", "{a,b}"]))
     for a in ALT_KF:
         for pre, post in ctxs:
@@ -272,13 +273,14 @@ def match_obligations(ctx, normal, kfs):
                     bound="canary", cbmc=unwind_flags(cb, 1), timeout=300))
     # known signatures, each family twice: PART 0 = everything but the signature (must hold), PART 1 = only the signature
     kal = [1, 2, 3] if ctx.tier == "quick" else [1, 2, 3, 4, 5]
-    for i in range(0, len(kfs), BATCH):
-        b = kfs[i:i + BATCH]
+    kb = 5 if ctx.tier == "quick" else BATCH
+    for i in range(0, len(kfs), kb):
+        b = kfs[i:i + kb]
         for al in kal:
             for part in (0, 1):
                 d = dict(src_defines(ctx), C05_PATS=",".join(cstr(p) for p in b), C05_NPAT=str(len(b)), C05_AL=str(al),
                          C05_KFGROUP="1", C05_PART=str(part))
-                name = ("C05.match.kf%02d.al%d" if part == 0 else "C05.prefix_alt.kf%02d.al%d") % (i // BATCH + 1, al)
+                name = ("C05.match.kf%02d.al%d" if part == 0 else "C05.prefix_alt.kf%02d.al%d") % (i // kb + 1, al)
                 obls.append(Obl(name, "C05", H, entry="h_match_eq", defines=d, mode="bounded",
                                 bound="patterns with a prefix alternative x every address of %d bytes x every type string of 0..3 tags%s"
                                       % (al, "" if part == 0 else "; only the prefix-alternative signature is asserted"),
